@@ -233,7 +233,11 @@ class Runtime(object):
             tr['keep'].append(o)
             provided[p] = o
         try:
-            r = nxt(**provided)
+            if f['spec'].get('next_style') == 'pos':
+                # values handed to next() positionally, in the order of the provides tuple
+                r = nxt(*[provided[p] for p in f['provides']])
+            else:
+                r = nxt(**provided)
         except Exception as e:
             if b == 'swallow':
                 r = make('resp')
@@ -405,6 +409,15 @@ def build(cfg, error_handler_factory=None, slash_mode=None):
         for lv in cfg['levels']:
             level_objs.append(([make_middleware(rt, m, types) for m in lv['mws']],
                                {n: rt.resource(n) for n in lv['resources']}))
+        # sibling routes declared *before* the real one, with middlewares of their own (which must stay theirs)
+        sibling_routes = []
+        for i, sib in enumerate(route.get('siblings') or []):
+            from clastic import Response as _Resp
+            sib_mws = [make_middleware(rt, m, types) for m in sib['mws']]
+            if sib.get('embedded'):
+                sibling_routes.append(('/sib%d' % i, Application([Route('/x', lambda: _Resp('sibling'))], middlewares=sib_mws)))
+            else:
+                sibling_routes.append(Route('/sib%d' % i, lambda: _Resp('sibling'), middlewares=sib_mws))
     except Refused as r:
         out.stage = 'decorator'
         out.error = r.error
@@ -425,7 +438,7 @@ def build(cfg, error_handler_factory=None, slash_mode=None):
             if slash_mode:
                 akw['slash_mode'] = slash_mode
             if inner is None:
-                routes = [make_decoy(d) for d in (route.get('decoys') or [])] + [r]
+                routes = sibling_routes + [make_decoy(d) for d in (route.get('decoys') or [])] + [r]
             else:
                 routes = [(level_prefix(cfg['levels'][k], k), inner)]
             if cfg.get('build_via_add'):
